@@ -285,6 +285,60 @@ theorem rp66_int_decode_spec (bs : List Nat) (i : Nat) (wf : Bytes.wf bs) :
 example : SNORM [9, 0xFF, 0x67] 1 = .ok (-153, 3) ∧ SLONG [0xFF, 0xFF, 0xFF, 0x67] 0 = .ok (-153, 4) ∧
     SSHORT [0x99] 0 = .ok (-103, 1) ∧ ULONG [0, 0, 0, 0x99] 1 = .error .indexError := ⟨by rfl, by rfl, by rfl, by rfl⟩
 
+/-- **DTIME, decode_spec + consumes_exactly** (B.21): eight bytes — year − 1900, time zone (high nibble) and month
+(low nibble), day, hour, minute, second, milliseconds (2 bytes, big-endian); `IndexError` exactly when fewer than
+eight bytes remain. -/
+theorem dtime_decode_spec (bs : List Nat) (i : Nat) (wf : Bytes.wf bs) :
+    DTIME bs i = if i + 8 ≤ bs.length then
+        .ok (⟨byteAt bs i + 1900, byteAt bs (i + 1) / 16, byteAt bs (i + 1) % 16, byteAt bs (i + 2), byteAt bs (i + 3),
+              byteAt bs (i + 4), byteAt bs (i + 5), byteAt bs (i + 6) * 256 + byteAt bs (i + 7)⟩, i + 8)
+      else .error .indexError := dtime_spec bs i wf
+
+example : DTIME [0x57, 0x14, 0x13, 0x0F, 0x14, 0x2B, 0x00, 0x21] 0 = .ok (⟨1987, 1, 4, 19, 15, 20, 43, 33⟩, 8) := by rfl
+
+/-- **ASCII, decode_spec** (B.20): a UVARI length `n` (occupying `k` bytes) and the next `n` bytes. -/
+theorem ascii_decode_spec (bs : List Nat) (i : Nat) (wf : Bytes.wf bs) :
+    ASCII bs i = match uvariSpec bs i with
+      | none => .error .indexError
+      | some (n, k) => if n > bs.length - (i + k) then .error .indexError
+                       else .ok ((bs.drop (i + k)).take n, i + k + n) := ascii_spec bs i wf
+
+/-- **ASCII, consumes_exactly**: a decoded string of length `n` consumed the `k` bytes of its UVARI length
+(`k = UVARI_len`) plus `n`, all inside the buffer. -/
+theorem ascii_consumes_exactly (bs : List Nat) (i j : Nat) (v : List Nat) (wf : Bytes.wf bs)
+    (h : ASCII bs i = .ok (v, j)) :
+    ∃ k, uvariSpec bs i = some (v.length, k) ∧ j = i + k + v.length ∧ j ≤ bs.length ∧
+      v = (bs.drop (i + k)).take v.length ∧ UVARI_len bs (i : Int) = .ok k := ascii_consumes bs i j v wf h
+
+example : ASCII [0x80, 0x03, 65, 66, 67, 9] 0 = .ok ([65, 66, 67], 5) := by rfl
+
+/-- **IDENT / UNITS, decode_spec**: `UNITS` is read exactly like `IDENT` (disallowed characters are only logged):
+one length byte `n`, then `n` bytes; `IndexError` exactly when they are not all there. -/
+theorem ident_units_decode_spec (bs : List Nat) (i : Nat) :
+    UNITS bs i = IDENT bs i ∧
+    IDENT bs i = (match bs[i]? with
+      | none => .error .indexError
+      | some n => if n > bs.length - (i + 1) then .error .indexError
+                  else .ok ((bs.drop (i + 1)).take n, i + 1 + n)) := ⟨rfl, ident_spec bs i⟩
+
+/-- **OBNAME, decode_spec + consumes_exactly** (B.23): ORIGIN (a UVARI of `k` bytes), copy number (one byte),
+IDENT; consumed `k + 1 + 1 + len(identifier)` bytes, all inside the buffer. -/
+theorem obname_consumes_exactly (bs : List Nat) (i j : Nat) (o : ObName) (wf : Bytes.wf bs)
+    (h : OBNAME bs i = .ok (o, j)) :
+    ∃ k, uvariSpec bs i = some (o.o, k) ∧ bs[i + k]? = some o.c ∧ IDENT bs (i + k + 1) = .ok (o.i, j) ∧
+      j = i + k + 1 + 1 + o.i.length ∧ j ≤ bs.length := obname_consumes bs i j o wf h
+
+/-- **OBJREF, decode_spec + consumes_exactly** (B.24): an IDENT (object type) followed by an OBNAME; the bytes
+consumed are `IDENT_len` plus `OBNAME_len` at the following index. -/
+theorem objref_consumes_exactly (bs : List Nat) (i j : Nat) (t : List Nat) (o : ObName) (wf : Bytes.wf bs)
+    (h : OBJREF bs i = .ok ((t, o), j)) :
+    IDENT bs i = .ok (t, i + 1 + t.length) ∧ OBNAME bs (i + 1 + t.length) = .ok (o, j) ∧
+      IDENT_len bs (i : Int) = .ok (1 + t.length) ∧
+      OBNAME_len bs ((i + 1 + t.length : Nat) : Int) = .ok (j - (i + 1 + t.length)) ∧ j ≤ bs.length :=
+  objref_consumes bs i j t o wf h
+
+example : OBJREF [2, 70, 71, 0x05, 1, 1, 72] 0 = .ok (([70, 71], ⟨5, 1, [72]⟩), 7) := by rfl
+
 /-- **FSINGL / FDOUBL, decode_spec + consumes_exactly**: four (eight) bytes, big-endian, IEEE-754 fields
 (sign, biased exponent, fraction) incl. subnormals, signed zero, infinities and NaN. -/
 theorem fsingl_fdoubl_decode_spec (bs : List Nat) (i : Nat) :
